@@ -168,6 +168,7 @@ static bool tcp_connect_one(Device *dev, struct addrinfo *addr)
     opt = 1;
     if (setsockopt(dev->fd, SOL_SOCKET, SO_REUSEADDR, &opt, sizeof(opt)) < 0) {
         close(dev->fd);
+        dev->fd = NO_FD;
         return false;
     }
     nonblock_set(dev->fd);
@@ -178,6 +179,7 @@ static bool tcp_connect_one(Device *dev, struct addrinfo *addr)
         return true;
 
     close(dev->fd);
+    dev->fd = NO_FD;
     return false;
 }
 
@@ -195,11 +197,15 @@ bool tcp_finish_connect(Device * dev)
     tcp = (TcpDev *)dev->data;
 
     if (!tcp_finish_connect_one(dev)) {
+        close(dev->fd);             /* done with the socket that failed */
+        dev->fd = NO_FD;
         tcp->cur = tcp->cur->ai_next;
         while (tcp->cur && !tcp_connect_one(dev, tcp->cur))
             tcp->cur = tcp->cur->ai_next;
-        if (tcp->cur == NULL)
+        if (tcp->cur == NULL) {
             dev->connect_state = DEV_NOT_CONNECTED;
+            tcp->cur = tcp->addrs;  /* next attempt starts over */
+        }
     }
     switch(dev->connect_state) {
         case DEV_NOT_CONNECTED:
@@ -232,8 +238,10 @@ bool tcp_connect(Device * dev)
     dev->connect_state = DEV_CONNECTING;
     while (tcp->cur && !tcp_connect_one(dev, tcp->cur))
         tcp->cur = tcp->cur->ai_next;
-    if (tcp->cur == NULL)
+    if (tcp->cur == NULL) {
         dev->connect_state = DEV_NOT_CONNECTED;
+        tcp->cur = tcp->addrs;      /* next attempt starts over */
+    }
 
     switch(dev->connect_state) {
         case DEV_NOT_CONNECTED:
